@@ -106,7 +106,11 @@ impl Report {
   }
   pub fn emit(&self) {
     use std::io::Write;
-    let s = format!("VH-RESULT {}\n", self.to_json());
+    // how oversubscribed the machine was (wall-clock bounds used as verdicts were scaled by it); the driver merges
+    // "max:" counters by maximum
+    let mut me = self.to_json();
+    me["counters"]["max:machine_oversubscription_factor"] = json!(crate::util::load_factor_now());
+    let s = format!("VH-RESULT {}\n", me);
     let _ = std::io::stdout().write_all(s.as_bytes());
     let _ = std::io::stdout().flush();
   }
